@@ -385,7 +385,7 @@ func runC02(c *core.Ctx, o Options) {
 						whole := elems[0] == ssa.Value(carried)
 						if sl, isSl := elems[0].(*ssa.Slice); isSl && sl.X == ssa.Value(carried) && sl.Low == nil {
 							pr := an.NewProver(sg, p, nil, nil)
-							whole = sl.High == nil || pr.Lin(sl.High).String() == "len("+carried.Comment+")"
+							whole = sl.High == nil || pr.Lin(sl.High).String() == "len("+an.Render(carried)+")"
 						}
 						nLast++
 						if !whole {
@@ -662,7 +662,7 @@ func checkTemplateRebuild(c *core.Ctx, rule string) {
 			passed := ""
 			for i, a := range args {
 				if an.Render(a) == src && i < len(body.Params) {
-					passed = body.Params[i].Name()
+					passed = an.Render(body.Params[i])
 				}
 			}
 			if passed == "" {
@@ -708,7 +708,7 @@ func checkTemplateRebuild(c *core.Ctx, rule string) {
 					hp, _ := an.EnumPaths(cal, 64)
 					for _, p := range hp {
 						if p.Return != nil && len(p.ResVals) == 1 {
-							cands = append(cands, [2]string{cal.Params[0].Name(), an.Render(an.Unwrap(p.ResVals[0]))})
+							cands = append(cands, [2]string{an.Render(cal.Params[0]), an.Render(an.Unwrap(p.ResVals[0]))})
 						}
 					}
 				}
